@@ -271,6 +271,76 @@ def check_cases(chk, cases):
                 chk.violation("C02/%s/%s" % (kind, op), what, dict(case, realisation=key["realisation"], failing_step=i))
 
 
+def module_init_contract(chk):
+    """growth beyond the listed clauses: Module.__init__ signature checking and output creation against ModuleInit.tla"""
+    import pymoto as pym
+    name, mod, cfg = tlc.mc("ModuleInit", {}, invariants=["CheckSound", "InitSound", "Emit"])
+    r = chk.tlc_must_hold(name, cfg, label="ModuleInit contract", extra_modules={name: mod}, workers=1)
+
+    def params(sg):
+        ps = ["self"] + ["a%d" % i for i in range(sg["pos"])]
+        if sg["dflt"]:
+            ps[-1] = ps[-1] + "=None"
+        if sg["varpos"]:
+            ps.append("*args")
+        if sg["kwonly"]:
+            ps.append("kw=None" if sg["varpos"] else "*, kw=None")
+        if sg["varkw"]:
+            ps.append("**kwargs")
+        return ", ".join(ps)
+    cache = {}
+    n = 0
+    for tag, v in r.printed:
+        if tag != "INIT":
+            continue
+        c = v[0]
+        key = (params(c["rs"]), params(c["ss"]))
+        if key not in cache:
+            import linecache
+            ns = {"pym": pym}
+            src = "class M(pym.Module):\n    def _response(%s):\n        return None\n    def _sensitivity(%s):\n        return None\n" % key
+            fname = "<moduleinit-%d>" % len(cache)
+            linecache.cache[fname] = (len(src), None, src.splitlines(True), fname)     # error messages of Module read the source
+            exec(compile(src, fname, "exec"), ns)
+            cache[key] = ns["M"]
+        ins = [pym.Signal("i%d" % i) for i in range(c["nin"])]
+        outs = [pym.Signal("o%d" % i) for i in range(c["nout"])]
+        try:
+            m = cache[key](ins, outs if outs else None)
+            got = {"res": "ok", "nout": len(m.sig_out)}
+            names = [s.tag for s in m.sig_out]
+        except SyntaxError:
+            got = {"res": "SyntaxError", "nout": 0}
+        except TypeError:
+            got = {"res": "TypeError", "nout": 0}
+        except Exception as e:
+            got = {"res": type(e).__name__, "nout": 0}
+        n += 1
+        if n % 50 == 0 or got != c["out"]:
+            chk.case({"module-init": [c["rs"], c["ss"], c["nin"], c["nout"]]})
+        if got != c["out"]:
+            chk.violation("C02/module-init", "Module with _response(%s), _sensitivity(%s), %d inputs, %d outputs: %s, specification %s"
+                          % (key[0], key[1], c["nin"], c["nout"], got, c["out"]), c)
+        elif got["res"] == "ok" and c["nout"] == 0 and got["nout"] > 0 and names != ["M_output%d" % i for i in range(got["nout"])]:
+            chk.violation("C02/module-init/names", "automatically created outputs are named %s" % names, c)
+    chk.count(n)
+    # Network.append: inputs = consumed but not produced, outputs = everything produced
+    class P(pym.Module):
+        def _response(self, *a):
+            return [0] * len(self.sig_out)
+
+        def _sensitivity(self, *a):
+            return [None] * len(self.sig_in)
+    sg = [pym.Signal("s%d" % i) for i in range(6)]
+    for wiring in ([([0, 1], [2]), ([2], [3, 4]), ([4, 0], [5])], [([0], [1]), ([1], [2])], [([0, 1], [2]), ([0], [3])], [([0], [0 + 1]), ([1, 1], [2]), ([3], [4])]):
+        net = pym.Network([P([sg[i] for i in a], [sg[i] for i in b]) for a, b in wiring])
+        cons = {i for a, b in wiring for i in a}
+        prod = {i for a, b in wiring for i in b}
+        chk.case({"network-sets": wiring})
+        if {id(s) for s in net.sig_in} != {id(sg[i]) for i in cons - prod} or {id(s) for s in net.sig_out} != {id(sg[i]) for i in prod}:
+            chk.violation("C02/network-sets", "Network%s: sig_in / sig_out differ from consumed-not-produced / produced" % (wiring,), {"wiring": wiring})
+
+
 def library_network_traces(chk, thorough):
     """[T] code -> spec: the protocol observed on real library networks driven by minimize_mma, minimize_oc and finite_difference"""
     import json
@@ -354,3 +424,4 @@ def run(chk, replay=None):
                 cases = random.Random(chk.seed + len(cases)).sample(cases, 3000)     # quick tier: seeded sample of each exhaustive family
             check_cases(chk, cases)
     library_network_traces(chk, thorough)
+    module_init_contract(chk)
